@@ -214,6 +214,101 @@ let schema_of = function
 
 let tf b = if b then "T" else "F"
 
+(* ---------- service cases (see harness/cmd/h_svc/main.go) ---------- *)
+let split_on_string (sep : string) (s : string) : string list =
+  let sl = String.length sep in
+  let rec go acc start i =
+    if i + sl > String.length s then List.rev (String.sub s start (String.length s - start) :: acc)
+    else if String.sub s i sl = sep then go (String.sub s start (i - start) :: acc) (i + sl) (i + sl)
+    else go acc start (i + 1) in
+  go [] 0 0
+
+let fields (l : string) : string list = List.filter (fun x -> x <> "") (String.split_on_char ' ' l)
+
+let res_is_error = function ResOk -> false | _ -> true
+
+let parse_step (t : string) : (action * char) =
+  let n = String.length t in
+  match t.[0] with
+  | 'r' -> (AReply (t.[1] = '1', parse_value_desc (String.sub t 4 (n - 4))), t.[2])
+  | 'e' ->
+    let rest = String.sub t 3 (n - 3) in
+    let i = String.index rest ':' in
+    (AReplyError (bytes_of_hex (String.sub rest 0 i), parse_value_desc (String.sub rest (i + 1) (String.length rest - i - 1))), t.[1])
+  | 's' ->
+    let k = (match t.[3] with 'I' -> EInterfaceNotFound | 'M' -> EMethodNotFound | 'N' -> EMethodNotImplemented | _ -> EInvalidParameter) in
+    (AStdError (k, bytes_of_hex (String.sub t 5 (n - 5))), t.[1])
+  | _ -> failwith ("bad step " ^ t)
+
+let rec prog_of (steps : (action * char) list) (ret : bool) : hprog =
+  match steps with
+  | [] -> Ret ret
+  | (a, pol) :: rest ->
+    Do (a, fun r ->
+        if res_is_error r then (match pol with 'e' -> Ret true | 'n' -> Ret false | _ -> prog_of rest ret)
+        else prog_of rest ret)
+
+type svc_case = {
+  mutable reg : registry option;
+  mutable regres : string;
+  mutable scripts : (n list * hprog) list;
+  mutable conns : (string * n list list) list;
+}
+
+let parse_svc_case (line : string) : svc_case =
+  let c = { reg = None; regres = ""; scripts = []; conns = [] } in
+  List.iter (fun sec ->
+      match fields sec with
+      | "svc" :: v :: p :: ver :: u :: d :: _ ->
+        c.reg <- Some (new_service (bytes_of_hex v) (bytes_of_hex p) (bytes_of_hex ver) (bytes_of_hex u) (bytes_of_hex d))
+      | "iface" :: name :: descr :: _ ->
+        (match c.reg with
+         | Some r -> let (r', refused) = register r (bytes_of_hex name) (bytes_of_hex descr) in
+           c.reg <- Some r'; c.regres <- c.regres ^ (if refused then "x" else "o")
+         | None -> failwith "iface before svc")
+      | "script" :: m :: rest ->
+        let ret = List.mem "ret1" rest in
+        let steps = List.filter (fun t -> t <> "ret0" && t <> "ret1") rest in
+        c.scripts <- (bytes_of_hex m, prog_of (List.map parse_step steps) ret) :: c.scripts
+      | "conn" :: mode :: rest ->
+        let chunks = (match rest with
+            | [] | ["-"] -> []
+            | h :: _ -> List.map bytes_of_hex (String.split_on_char ',' h)) in
+        c.conns <- c.conns @ [(mode, chunks)]
+      | [] -> ()
+      | x :: _ -> failwith ("bad section " ^ x)) (split_on_string " | " line);
+  c
+
+let handlers_of (c : svc_case) : n list -> n list -> call -> hprog =
+  fun iface m _ ->
+  let full = iface @ [n_of_int 46] @ m in
+  (try List.assoc full c.scripts with Not_found -> Ret false)
+
+let show_entry (e : entry) : string option =
+  match e.e_disp with
+  | DHandler (i, m) ->
+    let cl = e.e_call in
+    Some (String.concat " "
+            (["H" ^ hex_of_bytes i ^ "." ^ hex_of_bytes m;
+              (match cl.c_params with None -> "N" | Some r -> "R" ^ hex_of_bytes r);
+              tf cl.c_more ^ tf cl.c_oneway ^ tf cl.c_upgrade]
+             @ List.map (fun a -> if res_is_error a.at_result then "x" else "o") e.e_attempts
+             @ [if e.e_err then "ret1" else "ret0"]))
+  | _ -> None
+
+let filter_map f l = List.fold_right (fun x acc -> match f x with Some y -> y :: acc | None -> acc) l []
+
+let svc_run (line : string) : string =
+  let c = parse_svc_case line in
+  let reg = (match c.reg with Some r -> r | None -> failwith "no svc") in
+  let hs = handlers_of c in
+  let parts = List.map (fun (_, chunks) ->
+      let chunks = List.filter (fun ch -> ch <> []) chunks in
+      let o = serve_conn (nat_of_int 4096) reg hs None { rbuf = []; chunks = chunks } in
+      Printf.sprintf "out=%s log=[%s] ovl=0" (hex_of_bytes o.o_written)
+        (String.concat ";" (filter_map show_entry o.o_log))) c.conns in
+  String.concat " | " parts ^ " || reg=" ^ c.regres
+
 let split_ws (l : string) : string list =
   List.filter (fun x -> x <> "") (String.split_on_char ' ' l)
 
@@ -253,12 +348,17 @@ let handle (cmd : string) (line : string) : string =
   | "wire-run", cap :: chunks :: ops -> wire_run (int_of_string cap) chunks ops
   | _ -> failwith ("bad case for " ^ cmd ^ ": " ^ line)
 
+let handle_line (cmd : string) (line : string) : string =
+  match cmd with
+  | "svc-run" -> svc_run line
+  | _ -> handle cmd line
+
 let () =
   let cmd = Sys.argv.(1) in
   try
     while true do
       let line = input_line stdin in
-      print_string (handle cmd line);
+      print_string (handle_line cmd line);
       print_char '\n'
     done
   with End_of_file -> ()
